@@ -392,4 +392,35 @@ theorem layout_tree_complete (w : World) (root : Path) (ps3 : Bool) (L : Layout)
         exact scan_complete w root items fsec hscan
   · cases h
 
+/-- **From a directory record to the file's bytes.** For every tree and both hierarchies: a non-empty
+    file `f` of directory `k` that fits one extent has, among the records of that directory, one with
+    the file's mapped identifier and exact size, and reading the image at the location that record names
+    returns exactly the file's content. -/
+theorem file_reachable_through_image (w : World) (root : Path) (ps3 : Bool) (clk : Clock) (filler : Bytes) (L : Layout)
+    (hL : layoutOf w root ps3 = some L) (joliet : Bool) (dirLBA k : Nat) (it : DirItem) (hk : L.items[k]? = some it)
+    (f : FileRef) (hf : f ∈ it.files) (hpos : f.size ≠ 0) (hone : f.size ≤ maxPart) :
+    ∃ r ∈ finalRecs L.items L.rootLen joliet dirLBA L.filesLBA k it,
+      r.ident = makeIdentifier f.name joliet ∧ r.extLen = f.size ∧ r.flags = 0 ∧
+      (imageOf L ps3 clk filler).read (Proof.BuildWF.cfOf w) (r.extLoc * sectorSize) f.size = (Proof.BuildWF.cfOf w f.ino).all := by
+  have himg : build w root ps3 clk filler = some (imageOf L ps3 clk filler) := by simp [build, hL]
+  have hrecs : fileRecs f joliet L.filesLBA = [⟨f.rLBA + L.filesLBA, f.size, recTime f.mtime, 0, makeIdentifier f.name joliet⟩] := by
+    unfold fileRecs
+    have : ¬ f.size > maxPart := by omega
+    simp [this]
+  refine ⟨⟨f.rLBA + L.filesLBA, f.size, recTime f.mtime, 0, makeIdentifier f.name joliet⟩, ?_, rfl, rfl, rfl, ?_⟩
+  · unfold finalRecs
+    simp only [List.mem_append, List.mem_flatten, List.mem_map]
+    left; right
+    exact ⟨_, ⟨f, hf, rfl⟩, by rw [hrecs]; simp⟩
+  · have hmem : (⟨f.ino, f.size, f.rLBA + L.filesLBA⟩ : FileExt) ∈ (imageOf L ps3 clk filler).files := by
+      show _ ∈ L.files
+      unfold Layout.files
+      rw [List.mem_map]
+      refine ⟨f, ?_, rfl⟩
+      rw [List.mem_filter]
+      refine ⟨?_, by simpa using hpos⟩
+      rw [List.mem_flatten]
+      exact ⟨it.files, List.mem_map.mpr ⟨it, List.mem_of_getElem? hk, rfl⟩, hf⟩
+    exact built_extent_content w root ps3 clk filler _ himg ⟨f.ino, f.size, f.rLBA + L.filesLBA⟩ hmem
+
 end Ps3.Props.C07
